@@ -13,10 +13,8 @@ from .sregex import regex_triples
 
 
 class SCharSet:
-    """a str/bytes alphabet constant with membership tests that understand symbolic characters"""
-    def __init__(self, chars):
-        self.chars = chars
-        self.codes = [ord(c) for c in chars] if isinstance(chars, str) else list(chars)
+    """mixin: a str/bytes alphabet constant whose membership test understands symbolic characters.  The concrete classes
+    below subclass str / bytes, so every other use of the constant (indexing, len, isinstance, random choice) is the real one."""
 
     def __contains__(self, c):
         if isinstance(c, SStr):
@@ -28,36 +26,35 @@ class SCharSet:
             return bool(SBool(z3.Or(*[ch == x for x in self.codes]))) if self.codes else False
         if isinstance(c, SInt):
             return sym.elem_in(c, self.codes)
-        if isinstance(c, (str, bytes, int)):
-            return c in self.chars
-        return False
+        if isinstance(c, SBytes):
+            return len(c) == 1 and sym.elem_in(c.b[0] if isinstance(c.b[0], int) else SInt(c.b[0], 8), self.codes)
+        return self.base.__contains__(self, c)
 
-    def __iter__(self):
-        return iter(self.chars)
+    @property
+    def chars(self):
+        return self.base(self)
 
-    def __len__(self):
-        return len(self.chars)
 
-    def __getitem__(self, i):
-        return self.chars[i]
+class SCharSetStr(SCharSet, str):
+    base = str
 
-    def __eq__(self, o):
-        return (o.chars if isinstance(o, SCharSet) else o) == self.chars
+    def __new__(cls, chars):
+        o = str.__new__(cls, chars)
+        o.codes = [ord(c) for c in chars]
+        return o
 
-    def __ne__(self, o):
-        return not self.__eq__(o)
 
-    def __hash__(self):
-        return hash(self.chars)
+class SCharSetBytes(SCharSet, bytes):
+    base = bytes
 
-    def __str__(self):
-        return str(self.chars)
+    def __new__(cls, chars):
+        o = bytes.__new__(cls, chars)
+        o.codes = list(chars)
+        return o
 
-    def __repr__(self):
-        return repr(self.chars)
 
-    def __getattr__(self, name):
-        return getattr(self.chars, name)
+def make_charset(chars):
+    return SCharSetStr(chars) if isinstance(chars, str) else SCharSetBytes(chars)
 
 
 # ------------------------------------------------------------------ text <-> binary models
@@ -273,7 +270,7 @@ def class_triples(cls):
             v = k.__dict__.get(attr)
             if isinstance(v, (str, bytes)) and (k, attr) not in seen:
                 seen.add((k, attr))
-                out.append((k, attr, SCharSet(v)))
+                out.append((k, attr, make_charset(v)))
     return out
 
 
